@@ -211,6 +211,10 @@ class Minimiser:
                     case = self.try_one(case, "%s ALL -> explicit list" % key, lambda c, key=key, full=full: c["selection"].__setitem__(key, list(full)))
             if isinstance(case["selection"].get(key), list) and case["selection"][key]:
                 case = self.ddmin_list(case, lambda c, key=key: c["selection"][key], lambda c, v, key=key: (c["selection"].__setitem__(key, v), c)[1], key)
+        if case["selection"].get("user_main"):
+            case = self.try_one(case, "no user main file", lambda c: c["selection"].pop("user_main"))
+            if case["selection"].get("user_main"):
+                case = self.try_one(case, "user main file with quoted includes", lambda c: c["selection"]["user_main"].__setitem__("style", "quoted"))
         case = self.try_one(case, "with io (no --noio)", lambda c: c["selection"].__setitem__("io", True))
         case = self.try_one(case, "explicit --version-id x", lambda c: c["selection"].__setitem__("version_id", "x"))
         case = self.try_one(case, "default option order", lambda c: c["selection"].__setitem__("opt_order", ["units", "constants", "noio", "version"]))
